@@ -249,7 +249,7 @@ def months2days(year: int, month: int, months_delta: int) -> int:
 
 
 def round_number(value: Union[float, int, Decimal]) -> Union[float, int, Decimal]:
-    if math.isnan(value) or math.isinf(value):
+    if isinstance(value, int) or math.isnan(value) or math.isinf(value):
         return value
 
     # Decimal.to_integral_value() is not limited by the precision of the context
@@ -294,6 +294,12 @@ def get_double(value: FloatArgType, xsd_version: str | None = None) -> float:
                 return math.nan  # for NaN use the predefined instance to keep identity
         elif Patterns.double.match(value) is None:
             raise ValueError(f'invalid value {value!r} for xs:double/xs:float')
+    elif isinstance(value, int):
+        try:
+            return float(value)
+        except OverflowError:
+            # xs:integer is unbounded, the nearest xs:double is an infinity
+            return math.inf if value > 0 else -math.inf
     elif math.isnan(value):
         return math.nan
 
